@@ -1105,6 +1105,19 @@ impl Group for C04 {
                     match info {
                         None => "skip".into(),
                         Some((f, commit_txid, kt)) if f.3.is_some() && sd.ctype != 'a' => {
+                            // optional 4th token: the request carries the per-commitment point of *another* commitment
+                            // (point id + delta) — the HTLC transactions of a commitment other than the one signed last.
+                            // Then the request goes to the very node that signed this commitment in phase 2 (if it did),
+                            // whose enforcement state records the point of the commitment signed last; keys, scripts and
+                            // the key the signature must verify under are derived from the point of the request.
+                            let delta: u8 = t.get(3).and_then(|x| x.parse().ok()).unwrap_or(0);
+                            let use_kept = delta != 0 && cx.kept.is_some();
+                            let point = make_test_pubkey(sd.point.wrapping_add(delta));
+                            let kt = if delta != 0 {
+                                let holder = if use_kept { cx.kept.as_ref().map(|l| l.holder.clone()) } else { cx.live().ok().map(|l| l.holder.clone()) };
+                                match holder { Some(h) => key_tab(&h, &point), None => kt }
+                            } else { kt };
+                            let label = format!("{}{}", t[2], if delta != 0 { if use_kept { "@other-point-after-p2" } else { "@other-point" } } else { "" });
                             let (offered, amount, hash, cltv) = c.htlcs[f.5];
                             let z = ldk_anchors(sd.ctype);
                             let redeem_t = if offered { Tpl::Off { csv: z, rev: 1, k1: 4, k2: 3, hash, hashlen: 20 } }
@@ -1130,17 +1143,21 @@ impl Group for C04 {
                             }
                             let out_ws = ScriptBuf::from(script_bytes(&out_t, &kt));
                             if matches!(t[2], "delay" | "cdelay" | "rev" | "delayed") { tx.output[0].script_pubkey = out_ws.to_p2wsh(); }
-                            let point = make_test_pubkey(sd.point);
-                            let res = match cx.live() {
-                                Err(_) => None,
-                                Ok(live) => Some(catch_unwind(AssertUnwindSafe(|| live.node.with_channel(&live.id, |chan| chan.sign_counterparty_htlc_tx(&tx, &point, &redeem, amount, &out_ws))))),
+                            let res = if use_kept {
+                                let live = cx.kept.as_ref().unwrap();
+                                Some(catch_unwind(AssertUnwindSafe(|| live.node.with_channel(&live.id, |chan| chan.sign_counterparty_htlc_tx(&tx, &point, &redeem, amount, &out_ws)))))
+                            } else {
+                                match cx.live() {
+                                    Err(_) => None,
+                                    Ok(live) => Some(catch_unwind(AssertUnwindSafe(|| live.node.with_channel(&live.id, |chan| chan.sign_counterparty_htlc_tx(&tx, &point, &redeem, amount, &out_ws))))),
+                                }
                             };
                             match res {
                                 None => "no-channel".into(),
-                                Some(Err(_)) => { cx.live = None; co.tags.insert(format!("htlcraw:panic:{}", t[2])); "reject".into() }
-                                Some(Ok(Err(e))) => { co.tags.insert(format!("htlcraw:reject:{}:{}", t[2], if e.message().contains("sighash mismatch") { "mismatch" } else { "other" })); "reject".into() }
+                                Some(Err(_)) => { if use_kept { cx.kept = None; } else { cx.live = None; } co.tags.insert(format!("htlcraw:panic:{}", label)); "reject".into() }
+                                Some(Ok(Err(e))) => { co.tags.insert(format!("htlcraw:reject:{}:{}", label, if e.message().contains("sighash mismatch") { "mismatch" } else { "other" })); "reject".into() }
                                 Some(Ok(Ok(ts))) => {
-                                    co.tags.insert(format!("htlcraw:accept:{}", t[2]));
+                                    co.tags.insert(format!("htlcraw:accept:{}", label));
                                     // whatever was accepted: the signature must be over the BOLT-3 second-stage transaction
                                     // determined by the content of the request (outpoint, cltv of an offered HTLC, value)
                                     let lt = if offered { tx.lock_time.to_consensus_u32() } else { 0 };
@@ -1154,7 +1171,7 @@ impl Group for C04 {
                                     let hs = htlc_sighash(&tx, &redeem, amount, acp);
                                     let expect_ty = if acp { EcdsaSighashType::SinglePlusAnyoneCanPay } else { EcdsaSighashType::All };
                                     if !ver(hc) || ts.typ != expect_ty {
-                                        co.violations.push(Violation { kind: "htlc-raw-sig-not-canonical".into(), desc: format!("sign_counterparty_htlc_tx ({} of HTLC output {}, policy mode {}) returned a signature that does not verify against the BOLT-3 second-stage transaction{}", t[2], f.0, sd.mode, if ver(hs) { " — it verifies against the caller's transaction" } else { "" }), at: i });
+                                        co.violations.push(Violation { kind: "htlc-raw-sig-not-canonical".into(), desc: format!("sign_counterparty_htlc_tx ({} of HTLC output {}, policy mode {}) returned a signature that does not verify, under the HTLC key of the per-commitment point of the request, against the BOLT-3 second-stage transaction{}", label, f.0, sd.mode, if ver(hs) { " — it verifies against the caller's transaction" } else { "" }), at: i });
                                     } else if hs != hc {
                                         co.violations.push(Violation { kind: "mutated-htlc-tx-signed".into(), desc: format!("sign_counterparty_htlc_tx accepted a second-stage transaction ({}) that is not the BOLT-3 one of its content", t[2]), at: i });
                                     }
@@ -1642,6 +1659,11 @@ fn build_case(sd: &SetupD, c: &ContentD, rng: &mut Rng, tier: Tier) -> Option<Ve
             let k = rng.below(n_htlc_outs as u64);
             ops.push(format!("htlcraw {} none", k));
             for _ in 0..3 { ops.push(format!("htlcraw {} {}", k, rng.pick(&muts))); }
+            // the same HTLC transaction, but of another commitment: per-commitment point id + 1..3 (keys, scripts and
+            // the verification key follow the point of the request; sent to the node that signed this commitment)
+            let d = rng.range(1, 3);
+            ops.push(format!("htlcraw {} none {}", k, d));
+            ops.push(format!("htlcraw {} {} {}", k, rng.pick(&muts), d));
         }
     }
     Some(ops)
